@@ -337,6 +337,10 @@ pub struct Cfg {
     pub default_rom: bool,
     pub fastload: bool,
     pub autoload: bool,
+    /// speed mode the emulator is *constructed* with: 0 = FrameCount(1), 1 = FrameCount(2),
+    /// 2 = FrameCount(3), 3 = Max; `Machine::new` switches to FrameCount(1) straight away
+    /// (`set_speed`), so the value must not matter
+    pub init_mode: u8,
 }
 impl Cfg {
     pub fn m48() -> Cfg {
@@ -353,6 +357,7 @@ impl Cfg {
             default_rom: true,
             fastload: false,
             autoload: false,
+            init_mode: 0,
         }
     }
     pub fn m128() -> Cfg {
@@ -364,7 +369,12 @@ impl Cfg {
     pub fn settings(&self) -> RustzxSettings {
         RustzxSettings {
             machine: if self.is128 { ZXMachine::Sinclair128K } else { ZXMachine::Sinclair48K },
-            emulation_mode: EmulationMode::FrameCount(1),
+            emulation_mode: match self.init_mode {
+                0 => EmulationMode::FrameCount(1),
+                1 => EmulationMode::FrameCount(2),
+                2 => EmulationMode::FrameCount(3),
+                _ => EmulationMode::Max,
+            },
             tape_fastload_enabled: self.fastload,
             kempston_enabled: self.kempston,
             mouse_enabled: self.mouse,
@@ -478,6 +488,9 @@ impl Machine {
     pub fn new(cfg: Cfg) -> Machine {
         let mut emu = Emulator::<VHost>::new(cfg.settings(), VCtx).expect("emulator construction");
         emu.set_debug_interface(Dbg::new(DbgMode::Never));
+        if cfg.init_mode != 0 {
+            emu.set_speed(EmulationMode::FrameCount(1));
+        }
         Machine { emu, cfg }
     }
     pub fn frame_len(&self) -> usize {
@@ -522,6 +535,32 @@ impl Machine {
         self.emu.set_speed(EmulationMode::FrameCount(1));
         for _ in 0..n {
             self.emu.emulate_frames(Duration::from_secs(1000)).expect("emulate_frames");
+        }
+    }
+    /// `n` (>= 2) frames the way a debugging, fast-forwarding host may run them: a FrameCount(n)
+    /// pass interrupted by a breakpoint early in its first frame, then maximum-speed mode until the
+    /// (scripted) stopwatch runs out after n frame ends, then back to one frame per call. Must be
+    /// started on a frame boundary by a program that runs at least 40 instructions per frame.
+    pub fn run_frames_bp_then_max(&mut self, n: usize) -> Result<(), String> {
+        self.dbg().calls = 0;
+        self.dbg().mode = DbgMode::AtCalls(vec![40]);
+        self.emu.set_speed(EmulationMode::FrameCount(n));
+        let r = self.emu.emulate_frames(Duration::from_secs(1000)).map_err(|e| format!("{:?}", e))?;
+        if r.stop_reason != EmulationStopReason::Breakpoint {
+            return Err("expected a breakpoint stop in the first frame of the pass".into());
+        }
+        self.dbg().mode = DbgMode::Never;
+        let mut v: Vec<u64> = vec![0; n - 1];
+        v.extend_from_slice(&[9_000_000, u64::MAX / 4, 3]);
+        set_stopwatch(SwScript::List(v));
+        self.emu.set_speed(EmulationMode::Max);
+        let r = self.emu.emulate_frames(Duration::from_micros(1000)).map_err(|e| format!("{:?}", e));
+        set_stopwatch(SwScript::Zero);
+        self.emu.set_speed(EmulationMode::FrameCount(1));
+        match r {
+            Ok(i) if i.stop_reason == EmulationStopReason::Timeout => Ok(()),
+            Ok(_) => Err("Max mode returned without Timeout".into()),
+            Err(e) => Err(e),
         }
     }
     /// run until PC is in `pcs` or `max_frames` frames completed; returns Some(pc) on hit
